@@ -15,7 +15,12 @@ namespace SppModel.Tie
 open SppModel SppModel.Generated.StateMachines SppModel.Generated.CleanRfi
 
 theorem clean_rfi_translated : ∀ f ∈ SppModel.Generated.CleanRfi.translationFailures,
-    f.1 ∉ ["cleanrfi_init", "cleanrfi_clean_rfi", "cleanrfi_conversions"] := by decide
+    f.1 ∉ ["cleanrfi_init", "cleanrfi_clean_rfi", "cleanrfi_conversions", "cleanrfi_maskfile"] := by decide
+
+/-- the mask file carries every array of the mask - the accumulated channel mask itself, not something to be rebuilt
+    from the component masks (which only hold the LATEST call of each kind) - and loading hands every one back -/
+theorem mask_file_arrays : maskFileArraysWritten = "every ndarray attribute" ∧ maskFileArraysRead = "every dataset" := by
+  decide
 
 /-- a fresh `RFIMask` is the model's empty state -/
 theorem rfimask_init_is_model (env : RFIMaskEnv) : rfiSt (RFIMask.init env) = Rfi.init env.nchans := by
